@@ -181,6 +181,12 @@ func posInput(r *rand.Rand, thorough bool) *input {
 		}
 		switch r.Intn(6) {
 		case 0:
+			if r.Intn(4) == 0 {
+				// the lambda (and its parameter) far to the right of a long literal on the same line
+				n := pickInt(r, 100, 10000, 70000)
+				fmt.Fprintf(&b, "_p%d = \"%s\"; ", k, longText(n))
+				feat("lambda-at-column-" + class(int64(n)))
+			}
 			fmt.Fprintf(&b, "%s = lambda x: %s%s(x)\n", name, lead, prev)
 			feat("chain-lambda")
 		case 1:
